@@ -26,5 +26,69 @@ def run(tier):
                        bounds={"expression_depth": 2, "forms": 13, "leaf_kinds": 7, "name_pool": 2 if tier == "quick" else 6, "tuple_index": [-3, 3]},
                        extra_assumptions=["logging is disabled in the worker (CrossHair's symbolic clock makes LogRecord creation fork); message formatting of symbolic numbers/ast nodes is stubbed",
                                           "a constant index of another type than int into a tuple literal ((a,b)['x']) is outside the grammar"],
-                       not_traced=["clone of the input lambda and the structural walk of the comparison (leaves compared under tracing)"])
+                       not_traced=["clone of the input lambda and the structural walk of the comparison (leaves compared under tracing)",
+                                   "the callable / source-string forms (need source files): concrete differential side check over seeded samples of the same grammar"])
+    try:
+        three_ways_side_check(r, tier)
+    except Exception as e:  # noqa
+        r.harness_error("three-ways side check crashed: %r" % (e,))
     return r.finish()
+
+
+def three_ways_side_check(r, tier):
+    """lambdas supplied as source strings, ASTs and capture-free Python callables must give the same outcome.  The callable form needs a
+    source file, so this part is a concrete differential run over seeded samples of the same grammar (generated module, real lambdas)."""
+    import ast
+    import random
+    import logging
+    from vlib import report, srcgen
+    from vlib.sh import c10 as h
+    logging.disable(logging.CRITICAL)
+    rnd = random.Random(report.seed())
+    n = 400 if tier == "quick" else 3000
+    cases = []
+    tries = 0
+    while len(cases) < n and tries < n * 20:
+        tries += 1
+        picks = [rnd.randrange(h.NFORMS), rnd.randrange(h.NFORMS)] + [rnd.randrange(15) for _ in range(7)]
+        fl = h.Flags()
+        ch = h.Ch(picks)
+        try:
+            body = h.gen(ch, rnd.choice([0, 1, 5, -2]), rnd.choice(h.STRS + ["x y"]), rnd.choice([0, 1, -1, 2, -3]), fl, 15, True)
+        except Exception:  # noqa
+            continue
+        if ch.bad or fl.none_const:
+            continue
+        cases.append((rnd.randrange(3), ast.unparse(ast.fix_missing_locations(ast.Lambda(ast.arguments([], [ast.arg("e")], None, [], [], None, []), body)))))
+    text = "def _ops():\n    return ['Select', 'SelectMany', 'Where']\n\n\n"
+    for i, (op, src) in enumerate(cases):
+        text += "def case_%d(ds):\n    return ds.%s(\n        %s\n    )\n\n\n" % (i, h.OPS[op], src)
+    same = diff = 0
+
+    def outcome(fn):
+        try:
+            return ("ok", ast.dump(fn().query_ast.args[1]))
+        except ValueError:
+            return ("ValueError",)
+        except Exception as e:  # noqa
+            return ("internal error", type(e).__name__, str(e)[:200])
+    with srcgen.Scratch() as sc:
+        try:
+            mod = sc.load(text, "c10")
+        except Exception as e:  # noqa
+            r.harness_error("generated module for the three-ways check does not import: %r" % (e,))
+            return
+        for i, (op, src) in enumerate(cases):
+            a = outcome(lambda: getattr(h.UDS(), h.OPS[op])(ast.parse(src).body[0].value))
+            s = outcome(lambda: getattr(h.UDS(), h.OPS[op])(src))
+            c = outcome(lambda: getattr(mod, "case_%d" % i)(h.UDS()))
+            if a == s == c and a[0] != "internal error":
+                same += 1
+                if a[0] == "ok" and a[1] != ast.dump(ast.parse(src).body[0].value):
+                    r.violation("emitted lambda differs from the one passed: %s" % src, {"engine": "concrete", "program": src, "emitted": a[1][:400]})
+            else:
+                diff += 1
+                r.violation("the three ways of supplying a lambda disagree (ast / string / callable): %s" % src,
+                            {"engine": "concrete", "program": src, "ast": str(a)[:300], "string": str(s)[:300], "callable": str(c)[:300]})
+    r.coverage["concrete_three_ways_cases"] = len(cases)
+    r.coverage["concrete_three_ways_agree"] = same
